@@ -196,7 +196,7 @@ def _grad_stage(ks, dm, nspin):
     return res
 
 
-SDMX_BLOCKS = (600, 997, 1504)
+SDMX_BLOCKS = (600, 997, 1504, 1, 5, 57)   # incl. blocks shorter than team x (team - 1): partition edge cases
 
 
 def _sdmx_stage(ks, dm, nspin, r):
@@ -365,6 +365,11 @@ def _evaluators_direct(rng, n):
         X = rng.normal(size=(n, n1)) if kind == "rbf" else rng.normal(size=(2, n, n1))
         res, dres = ev(X)
         out[kind] = np.concatenate([np.ravel(res), np.ravel(dres)])
+        # the accumulate-into-buffers form every evaluator after the first of a kernel is called with (pre-filled buffers)
+        r0 = rng.normal(size=np.shape(res))
+        d0 = rng.normal(size=np.shape(dres))
+        r1, d1 = ev(X, r0.copy(), d0.copy())
+        out[kind + "_prefilled"] = np.concatenate([np.ravel(r1 - r0), np.ravel(d1 - d0)])
     return out
 
 
